@@ -260,6 +260,10 @@ void checkOracles(const Desc& d, const Obs& o, RunResult& r) {
     Config c = configOf(d);
     Vec<int> testGroups, pluginGroups;
     for (size_t g = 0; g < d.groups.size(); g++) { if (d.groups[g].tag == "test") testGroups.push_back((int)g); else if (d.groups[g].tag == "plugin") pluginGroups.push_back((int)g); }
+    // pointer state the run starts from: redirections made outside any test are not the run's to restore (one nibble per target, as probePointers())
+    int64_t ptrBaseline = 0;
+    for (size_t g = 0; g < d.groups.size(); g++) if (d.groups[g].tag == "presets")
+        for (size_t i = 0; i < d.groups[g].ops.size() && i < 8; i++) { const Op& po = d.groups[g].ops[i]; if (po.kind != K_PTR_SET) continue; int t = (int)(po.a % N_TARGETS); ptrBaseline = (ptrBaseline & ~((int64_t)15 << (4 * t))) | ((int64_t)(1 + po.b % N_VALUES) << (4 * t)); }
     size_t N = testGroups.size();
     Vec<MFilter> gf, nf; collectFilters(d, gf, nf);
     Vec<char> selected(N, 0), runs(N, 0);
@@ -357,7 +361,7 @@ void checkOracles(const Desc& d, const Obs& o, RunResult& r) {
             }
             if (x.leakFailure) probe("leak_failure_expected"); if (!x.leaks.empty() && !x.leakFailure) probe("leaks_but_no_leak_failure");
             if (!x.fails.empty()) { bool sb = false, td = false; for (size_t q = 0; q < x.fails.size(); q++) { (void)q; } (void)sb; (void)td; if (x.fails.size() >= 2) probe("two_failures_in_one_test"); }
-            if (probed && probeVal != 0) r.fail("C17", "pointers_restored", sigOf("where", "next test"), sfmt("pointer state %llx at start of test %d (0 = all restored)", (unsigned long long)probeVal, st.test));
+            if (probed && probeVal != ptrBaseline) r.fail("C17", "pointers_restored", sigOf("where", "next test"), sfmt("pointer state %llx at start of test %d, %llx before the run", (unsigned long long)probeVal, st.test, (unsigned long long)ptrBaseline));
             if (c.separate && shouldExecute) {
                 // ---- C11: what the parent must record for this test, from the child's modelled fate and the wait script
                 Vec<Str> want; Vec<Str> eitherTail; bool windowGiveUp = false, terminalSeen = false;
@@ -525,7 +529,7 @@ void checkOracles(const Desc& d, const Obs& o, RunResult& r) {
     if (o.depthAtEnd != o.depthAtStart) r.fail("C01", "jump_depth", sigOf("where", "end of run"), sfmt("jump stack depth %ld at end of run, %ld at start", o.depthAtEnd, o.depthAtStart));
     if (o.maxDepth - o.depthAtStart > 9) r.fail("C01", "jump_depth", sigOf("where", "max"), sfmt("jump stack reached depth %ld", o.maxDepth));
     if (!o.ctxOkAtEnd) r.fail("C01", "context", sigOf("where", "end of run"), "current test not restored at end of run");
-    if (o.finalProbe != 0) r.fail("C17", "pointers_restored", sigOf("where", "end of run"), sfmt("pointer state %llx after the last test", (unsigned long long)o.finalProbe));
+    if (o.finalProbe != ptrBaseline) r.fail("C17", "pointers_restored", sigOf("where", "end of run"), sfmt("pointer state %llx after the last test, %llx before the run", (unsigned long long)o.finalProbe, (unsigned long long)ptrBaseline));
     if (o.maxDepth - o.depthAtStart >= 2 && totalExpectedFailures > 10) probe("more_than_10_failures_in_run");
 
     // ---- console stream (C01: printed exactly once with file and line; summary text)
